@@ -774,14 +774,17 @@ class Client:
                 return True
             return False
 
-        (active_script, scripts) = self.listscripts()
+        listing = self.listscripts()
+        if listing is None:
+            return False
+        (active_script, scripts) = listing
         condition = oldname != active_script and (
             scripts is None or oldname not in scripts
         )
         if condition:
             self.errmsg = b"Old script does not exist"
             return False
-        if newname in scripts:
+        if newname in scripts or newname == active_script:
             self.errmsg = b"New script already exists"
             return False
         oldscript = self.getscript(oldname)
